@@ -29,7 +29,7 @@ def generate(ctx):
         "cap": dict(Mode='"cap"'),
         "sweep": dict(Mode='"sweep"'),
         "pairs": dict(Mode='"sel"', MaxSel=2, AllShapes="TRUE"),
-        "deep": dict(Mode='"sel"', MaxSel=3 if q else 4, AllShapes="FALSE", TripleMod=16 if q else 1, QuadMod=64 if q else 24),
+        "deep": dict(Mode='"sel"', MaxSel=3 if q else 4, AllShapes="FALSE", TripleMod=16 if q else 1, QuadMod=64 if q else 48),
     }
     with cf.ThreadPoolExecutor(max_workers=5) as ex:
         futs = {k: ex.submit(tlc_mode, ctx, k, v, 2 if k != "deep" else (4 if q else 8)) for k, v in jobs.items()}
@@ -87,9 +87,9 @@ def build_cases(ctx, ids, cfgs, caps, sels, sweep):
         for j, c in enumerate(cfgs):
             if not q or (j + i + seed) % 6 == 0:
                 add({"type": "id", "id": name}, c)
-    # (a') server names of every length 1..260 (padding window crossed byte by byte): 3 parrots by seed / every parrot
+    # (a') server names of every length 1..260 (padding window crossed byte by byte): 3 parrots by seed / every second parrot
     allp = ids["parrots"]
-    for name in (allp if not q else [allp[(seed * 3 + k * 13) % len(allp)] for k in range(3)]):
+    for name in ([allp[(seed + 2 * k) % len(allp)] for k in range(len(allp) // 2)] if not q else [allp[(seed * 3 + k * 13) % len(allp)] for k in range(3)]):
         for c in sweep:
             add({"type": "id", "id": name}, c)
     # (b) randomized ids x PRNG seeds, Config rotating over the grid
@@ -106,7 +106,7 @@ def build_cases(ctx, ids, cfgs, caps, sels, sweep):
         for fi, (b, p, r) in enumerate(FLAGS):
             if not q or (fi + i + seed) % 4 == 0:
                 add({"type": "fp", "of": {"type": "id", "id": name}, "blunt": b, "pad": p, "realpsk": r}, cfgs[(i * 11 + fi * 3 + seed) % n])
-    step = 12 if q else 3
+    step = 12 if q else 5
     for k, s in enumerate(sels[::step]):
         spec = {"min": s["min"], "max": s["max"], "suites": s["suites"], "comp": s["comp"], "exts": s["exts"]}
         b, p, r = FLAGS[(k + seed) % 8]
